@@ -6,7 +6,7 @@
    MI D Imp w: Core holds when the content lists of D are ignored; the rest says where D and Imp sit in w1. *)
 From Coq Require Import PeanoNat Arith Lia.
 From AV Require Import Base.Bytes Base.Outcome Hash.HashModel Tree.Heap Tree.Ops Tree.Script Tree.Inv
-  Tree.InvProofsBase Tree.InvProofsCore Tree.InvProofsTree Tree.InvProofsPrim Tree.InvProofsNav
+  Tree.InvProofsBase Tree.InvProofsCore Tree.InvProofsTree Tree.InvProofsPrim Tree.InvProofsCreate Tree.InvProofsNav
   Tree.Load Tree.InvLoad Tree.InvProofsLoadBase Tree.InvProofsLoadWalk.
 Open Scope string_scope.
 Open Scope list_scope.
@@ -316,5 +316,116 @@ Proof.
   - apply M.
   - intros c p Hc Hp. apply Hpar' in Hp. destruct (mi_hang _ _ _ M _ _ Hc Hp); auto.
 Qed.
+
+(* ------------------------------------------------------------------ the code *)
+Lemma lists_wset_kids w x nx n' p c : w_nodes w x = Some nx -> kids n' = kids nx ->
+  (lists (wset w x n') p c <-> lists w p c).
+Proof.
+  intros Hn Hk. rewrite !lists_skel. destruct (N.eq_dec p x) as [->|Hp].
+  - rewrite skel_wset_eq, (skel_some _ _ _ Hn), Hk. split; intros (a & b & [= <- <-] & Hc); eauto.
+  - rewrite skel_wset_neq by auto. tauto.
+Qed.
+Lemma alloc_wset w x nx n' i : w_nodes w x = Some nx -> (allocated (wset w x n') i <-> allocated w i).
+Proof.
+  intros Hn. rewrite !allocated_skel. destruct (N.eq_dec i x) as [->|Hp].
+  - rewrite skel_wset_eq, (skel_some _ _ _ Hn). split; congruence.
+  - rewrite skel_wset_neq by auto. tauto.
+Qed.
+Lemma reach_wset_kids w x nx n' y : w_nodes w x = Some nx -> kids n' = kids nx ->
+  (Reach (wset w x n') r y <-> Reach w r y).
+Proof.
+  intros Hn Hk. split; apply reach_mono.
+  - intros i Hi. exact (proj1 (alloc_wset _ _ _ n' i Hn) Hi).
+  - intros p c Hl. exact (proj1 (lists_wset_kids _ _ _ n' p c Hn Hk) Hl).
+  - intros i Hi. exact (proj2 (alloc_wset _ _ _ n' i Hn) Hi).
+  - intros p c Hl. exact (proj2 (lists_wset_kids _ _ _ n' p c Hn Hk) Hl).
+Qed.
+
+Ltac okstep H a wa E :=
+  apply wbind_inv in H as [(a & wa & E & H) | (?e & ?E' & ?Hx)]; [|discriminate]; cbv beta zeta in H.
+
+Lemma stp_restrict_a_only files : forall l, stp (restrict_a_only l files).
+Proof.
+  induction l as [|e l IH]; cbn [restrict_a_only]; [apply stp_ro; ro_tac|].
+  apply stp_bind; [|intros _; exact IH]. apply stp_modify_node. intros n. destruct (is_empty (n_files n)); split; reflexivity.
+Qed.
+
+Lemma import_ok pa pb nf minv : forall l idx D Imp w w',
+  MI D Imp w -> In pb D -> Reach w r pa ->
+  (forall x, In x (map fst l) -> lists w1 pb x /\ ~ In x Imp /\ ~ In x D) -> NoDup (map fst l) ->
+  import_new_items T pa l idx nf minv w = Val (OK tt, w') ->
+  exists Imp', MI D Imp' w' /\ (forall y, In y Imp' <-> In y Imp \/ In y (map fst l)) /\
+               (forall p c, lists w p c -> lists w' p c).
+Proof.
+  induction l as [|[x ipos] l IH]; intros idx D Imp w w' M Hpb Hpa Hall Hnd H; cbn [import_new_items] in H.
+  - apply wret_inv in H as (_ & ->). exists Imp. split; auto. split; auto. intros y. cbn. tauto.
+  - cbn [map fst] in Hall, Hnd. apply NoDup_cons_iff in Hnd as (Hxl & Hnd).
+    destruct (Hall x (or_introl eq_refl)) as (Hlx & HxI & HxD).
+    okstep H u1 wa E1. apply modify_node_wset in E1 as (nx & Hnx & _ & ->).
+    destruct (MI_reparent D Imp w x nx pa pb M Hpb Hlx HxI HxD Hpa Hnx) as (Ma & Hnl).
+    set (wa := wset w x (set_parent nx (PElem pa))) in *.
+    assert (Hnxa : w_nodes wa x = Some (set_parent nx (PElem pa))) by apply nodes_wset_eq.
+    okstep H u2 wb E2. apply modify_node_wset in E2 as (nx2 & Hnx2 & _ & ->).
+    rewrite Hnxa in Hnx2. injection Hnx2 as <-.
+    set (nx3 := set_files _ _) in *.
+    assert (Sab : same_tree wa (wset wa x nx3)) by (eapply st_wset; eauto; reflexivity).
+    pose proof (MI_same_tree _ _ _ _ Sab Ma) as Mb.
+    set (wb := wset wa x nx3) in *.
+    okstep H ne w3 E3. apply get_node_inv in E3 as (ne' & Hne & [= ->] & ->).
+    okstep H pan w4 E4. apply get_node_inv in E4 as (npa & Hnpa & [= ->] & ->).
+    okstep H range w5 E5. pose proof (ro_catch _ (ro_calc_range T _ _ _) _ _ _ E5) as ->.
+    destruct range as [[fp lp]|e]; [|apply wfail_inv in H as ([=] & _)].
+    okstep H u3 wc E6. apply content_insert_inv in E6 as (npa' & Hnpa' & _ & ->).
+    rewrite Hnpa in Hnpa'. injection Hnpa' as <-.
+    assert (Hpa_a : Reach wa r pa) by (apply (reach_wset_kids w x nx _ pa Hnx); [reflexivity|exact Hpa]).
+    assert (Hpa_b : Reach wb r pa) by (apply (st_reach _ _ _ _ Sab); exact Hpa_a).
+    assert (Hpx_b : par wb x pa) by (exists nx3; split; [apply nodes_wset_eq|reflexivity]).
+    assert (Hnl_b : ~ lists wb pa x).
+    { intros Hl. apply (st_lists _ _ _ _ Sab) in Hl. apply (lists_wset_kids w x nx _ pa x Hnx) in Hl; [auto|reflexivity]. }
+    destruct (MI_insert D (x :: Imp) wb x pa npa (N.to_nat (N.min (N.max (ipos + idx) fp) lp)) Mb HxD Hpa_b Hpx_b Hnl_b Hnpa) as (Mc & Hmono).
+    set (wc := wset wb pa _) in *.
+    assert (Hpa_c : Reach wc r pa).
+    { eapply reach_mono; [| exact Hmono | exact Hpa_b]. intros i. apply (alloc_wset wb pa npa _ i Hnpa). }
+    destruct (IH (idx + 1) D (x :: Imp) wc w' Mc Hpb Hpa_c) as (Imp' & M' & HI' & Hm'); auto.
+    { intros x' Hx'. destruct (Hall x' (or_intror Hx')) as (A & B & Cc). split; auto. split; auto.
+      intros [<-|Hin]; auto. }
+    exists Imp'. split; auto. split.
+    + intros y. rewrite HI'. cbn [map fst In]. tauto.
+    + intros p c Hl. apply Hm'. apply Hmono. apply (st_lists _ _ _ _ Sab).
+      apply (lists_wset_kids w x nx _ p c Hnx); [reflexivity|exact Hl].
+Qed.
+
+(* the loop over the merge pairs, as a named function *)
+Definition subs_loop (fl : nat) (files : list N) (nf : N) : list (id * id) -> W unit :=
+  fix subs (l : list (id * id)) : W unit :=
+    match l with
+    | [] => wret tt
+    | (elem_a, elem_b) :: rest =>
+      (do ea <- get_node elem_a;
+       let files' := if negb (is_empty (n_files ea)) then n_files ea else files in
+       merge_element T LATEST name_definition_ref fl elem_a files' elem_b nf;;
+       modify_node elem_a (fun x => if negb (is_empty (n_files x)) then set_files x (set_add nf (n_files x)) else x);;
+       subs rest)%W
+    end.
+
+Lemma merge_element_S fl pa files pb nf :
+  merge_element T LATEST name_definition_ref (S fl) pa files pb nf =
+  (do w <- wget;
+   do na <- get_node pa;
+   do nb <- get_node pb;
+   let pty := n_type na in
+   do la <- wl (keys_of T name_definition_ref w pty (n_content na));
+   do lb <- wl (keys_of T name_definition_ref w pty (n_content nb));
+   let min_ver_a := files_min_version LATEST w files in
+   let min_ver_b := match nth_opt (w_files w) (N.to_nat nf) with Some x => f_version x | None => LATEST end in
+   let version := N.min min_ver_a min_ver_b in
+   do splitable <- wl (splittable_in T pty version);
+   do wk <- (fun w0 => match walk (S (List.length la + List.length lb)) la lb splitable (N.of_nat (List.length (n_content na))) 0 la lb
+                                  (mkWalked [] [] []) with
+                       | Val o => Val (o, w0) | Pan s => Pan s | Fuel => Fuel end);
+   restrict_a_only (wk_a_only wk) files;;
+   import_new_items T pa (wk_b_only wk) 0 nf min_ver_b;;
+   subs_loop fl files nf (wk_merge wk))%W.
+Proof. reflexivity. Qed.
 
 End Merge.
